@@ -653,6 +653,48 @@ end:
   loop_end();
 }
 
+/* ---- 16b. thread-pool start-up with UV_THREADPOOL_SIZE = <arg> in a fresh process: the worker
+   table is heap-allocated above 4 threads and falls back to the 4 static slots when that
+   allocation fails.  More work items than threads are queued; every item must run and complete
+   exactly once; the number of worker threads is read from /proc/self/task. ------------------------ */
+#define POOL_MAXW 140
+static uv_work_t pw_req[POOL_MAXW]; static _Atomic int pw_ran[POOL_MAXW]; static int pw_after[POOL_MAXW];
+static int count_tasks(void) {
+  DIR* d = __real_opendir("/proc/self/task"); struct dirent* e; int n = 0;
+  if (!d) return -1;
+  while ((e = readdir(d)) != NULL) if (e->d_name[0] != '.') n++;
+  closedir(d);
+  return n;
+}
+static void pw_work(uv_work_t* w) { pw_ran[w - pw_req]++; }
+static void pw_done(uv_work_t* w, int st) { pw_after[w - pw_req]++; if (st) cbev("pool_work", st); pend--; }
+static void sc_pool(void) {
+  char val[16]; int n = scen_arg > 0 ? scen_arg : 4, items, i, t0, ok = 0, dup = 0, on;
+  snprintf(val, sizeof val, "%d", n);
+  setenv("UV_THREADPOOL_SIZE", val, 1);
+  items = n + 5 < POOL_MAXW ? n + 5 : POOL_MAXW;
+  memset(pw_after, 0, sizeof pw_after);
+  for (i = 0; i < POOL_MAXW; i++) pw_ran[i] = 0;
+  if (loop_begin()) return;
+  on = fi_on; fi_on = 0; t0 = count_tasks(); fi_on = on;
+  /* the first uv_queue_work starts the pool */
+  if (API("queue_work", uv_queue_work(&L, &pw_req[0], pw_work, pw_done)) == 0) {
+    pend++;
+    on = fi_on; fi_on = 0; ev("info.workers=%d", count_tasks() - t0); fi_on = on;
+    for (i = 1; i < items; i++)
+      if (API("queue_work", uv_queue_work(&L, &pw_req[i], pw_work, pw_done)) == 0) pend++;
+    run_pending();
+    for (i = 0; i < items; i++) {
+      if (pw_ran[i] == 1 && pw_after[i] == 1) ok++;
+      if (pw_ran[i] > 1 || pw_after[i] > 1) dup++;
+    }
+    ev("items=%d", items);
+    ev("completed_once=%d", ok);
+    ev("duplicated=%d", dup);
+  }
+  loop_end();
+}
+
 /* ---- 17. uv_pipe / uv_socketpair / pipe_open / poll handle ------------------------------------------------------ */
 static uv_poll_t pl; static uv_pipe_t po1, po2;
 static void poll_cb(uv_poll_t* h, int st, int events) { cbev("poll", st < 0 ? st : events); uv_poll_stop(h); pend--; }
@@ -1007,7 +1049,7 @@ static void su_close(void) {
   {"pipe_big", sc_pipe_big}, {"tcp_refused", sc_tcp_refused}, {"tcp_many", sc_tcp_many}, {"connect_fail", sc_connect_fail}, {"udp", sc_udp}, \
   {"fs_sync", sc_fs_sync}, {"fs_async", sc_fs_async}, {"fs_event", sc_fs_event}, {"fs_poll", sc_fs_poll}, \
   {"spawn", sc_spawn}, {"spawn_fail", sc_spawn_fail}, {"spawn_many", sc_spawn_many}, {"signal", sc_signal}, {"signal_close", sc_signal_close}, {"tcp_shed", sc_tcp_shed}, \
-  {"dns", sc_dns}, {"os", sc_os}, {"work", sc_work}, {"pairs", sc_pairs}, {"ipc", sc_ipc}, {"sysinfo", sc_sysinfo}, \
+  {"dns", sc_dns}, {"os", sc_os}, {"work", sc_work}, {"pool", sc_pool}, {"pairs", sc_pairs}, {"ipc", sc_ipc}, {"sysinfo", sc_sysinfo}, \
   {"u_write2", su_write2}, {"u_udp_send", su_udp_send}, {"u_fs_poll_start", su_fs_poll_start}, \
   {"u_os_environ", su_os_environ}, {"u_fs_event_start", su_fs_event_start}, {"u_getaddrinfo", su_getaddrinfo}, \
   {"u_fs_path", su_fs_path}, {"u_spawn", su_spawn}, {"u_accept", su_accept}, {"u_async", su_async}, {"u_close", su_close}, {"u_loop_init", su_loop_init}, {"u_async_io", su_async_io}, {"u_signal_event", su_signal_event},
